@@ -45,3 +45,36 @@ func (x *Exec) frozenMapWrite(m *MapObj) {
 	}
 	x.check(x.st.False, "assert", "write to a shared (pre-existing) map during an operation that must be read-only")
 }
+
+// Check-then-act rule (mode 1): a field of a shared object that is written inside a critical
+// section must have been read inside the same critical section first. A conversion that is
+// guarded by a test made BEFORE the lock was taken (double-checked locking without the second
+// check) passes the store rule above but lets two threads both decide to convert; this rule
+// flags its first store to the guard field. Fields whose offset is symbolic are not tracked.
+func (x *Exec) csAccess(o *Object, off, size int, write bool, what string) {
+	if x.frozen != 1 || !x.holdsWriteLock() || o.ID > x.frozenMark || !x.csRule {
+		return
+	}
+	if x.csReads == nil {
+		x.csReads = map[*Object]map[int]bool{}
+	}
+	m := x.csReads[o]
+	if m == nil {
+		m = map[int]bool{}
+		x.csReads[o] = m
+	}
+	if write {
+		seen := false
+		for i := off; i < off+size; i++ {
+			if m[i] {
+				seen = true
+			}
+		}
+		if !seen {
+			x.check(x.st.False, "assert", "store to a field of shared "+o.String()+" inside the write lock although the field was not read since the lock was taken: the decision to modify was made outside the critical section (check-then-act)")
+		}
+	}
+	for i := off; i < off+size; i++ {
+		m[i] = true
+	}
+}
